@@ -435,3 +435,20 @@ def over_all_children(it, owner):
     if c == canon(("fld", owner, "_childrenv", 0)):
         return True
     return c == ("dictiter", canon(("fld", owner, "children", 0)))
+
+
+def child_receiver(recv, owner):
+    """'all' when the receiver ranges over every child of `owner`, 'strats' when it ranges over its registered strategy children
+    (self.children[name] for name in self._strat_children - kept by _add_children, checked there), else None."""
+    if not isinstance(recv, tuple) or not recv:
+        return None
+    if recv[0] == "elem":
+        it = recv[1]
+        if over_all_children(it, owner) or (it[0] == "fld" and it[2] == "_childrenv") or (it[0] == "mcall" and it[2] == "values") or (it[0] == "call" and it[1] == "list"):
+            return "all"
+        return None
+    if recv[0] == "sub" and canon(recv[1]) == canon(("fld", owner, "children", 0)):
+        k = recv[2]
+        if isinstance(k, tuple) and k and k[0] == "elem" and canon(k[1]) == canon(("fld", owner, "_strat_children", 0)):
+            return "strats"
+    return None
